@@ -38,6 +38,17 @@ pub trait Kind: 'static {
     fn vlive(_v: &Self::V) -> bool {
         true
     }
+    /// payload counts its own `Clone::clone` calls and stamps a generation (kinds without drop glue)
+    const COUNTS_CLONES: bool = false;
+    fn clone_calls() -> u64 {
+        0
+    }
+    fn kgen(_k: &Self::K) -> u32 {
+        0
+    }
+    fn vgen(_v: &Self::V) -> u32 {
+        0
+    }
     /// expected rendering by `{:?}` of key / value (for the fmt engine)
     fn kdbg(raw: u8) -> String;
     fn vdbg(x: u32) -> String;
@@ -374,6 +385,182 @@ impl Kind for ZstVal {
     }
     fn kdisp(raw: u8) -> String {
         format!("{raw}")
+    }
+    fn vdisp(_: u32) -> String {
+        "nil".into()
+    }
+}
+
+/// Payload with a hand-written, observable `Clone` and **no drop glue**: `needs_drop` is false
+/// for it although it is not `Copy`, so a "plain data" shortcut keyed on `needs_drop` (bitwise
+/// copy instead of `Clone::clone`) is visible. Equality looks at `raw` only; the borrowed form
+/// is the `u8` inside.
+use std::cell::Cell;
+thread_local! {
+    static ND_CLONES: Cell<u64> = const { Cell::new(0) };
+}
+pub struct NK {
+    pub raw: u8,
+    pub gen: u32,
+}
+impl PartialEq for NK {
+    fn eq(&self, o: &NK) -> bool {
+        crate::tl::tick(crate::tl::Cb::KeyEq);
+        self.raw == o.raw
+    }
+}
+impl Eq for NK {}
+impl Clone for NK {
+    fn clone(&self) -> NK {
+        crate::tl::tick(crate::tl::Cb::KeyClone);
+        ND_CLONES.with(|c| c.set(c.get() + 1));
+        NK { raw: self.raw, gen: self.gen + 1 }
+    }
+}
+impl Borrow<u8> for NK {
+    fn borrow(&self) -> &u8 {
+        &self.raw
+    }
+}
+impl fmt::Display for NK {
+    fn fmt(&self, f: &mut fmt::Formatter<'_>) -> fmt::Result {
+        write!(f, "n{}", self.raw)
+    }
+}
+impl fmt::Debug for NK {
+    fn fmt(&self, f: &mut fmt::Formatter<'_>) -> fmt::Result {
+        write!(f, "n{}", self.raw)
+    }
+}
+#[derive(Default)]
+pub struct NV {
+    pub val: u32,
+    pub gen: u32,
+}
+impl PartialEq for NV {
+    fn eq(&self, o: &NV) -> bool {
+        self.val == o.val
+    }
+}
+impl Clone for NV {
+    fn clone(&self) -> NV {
+        crate::tl::tick(crate::tl::Cb::ValClone);
+        ND_CLONES.with(|c| c.set(c.get() + 1));
+        NV { val: self.val, gen: self.gen + 1 }
+    }
+}
+impl fmt::Display for NV {
+    fn fmt(&self, f: &mut fmt::Formatter<'_>) -> fmt::Result {
+        write!(f, "w{}", self.val)
+    }
+}
+impl fmt::Debug for NV {
+    fn fmt(&self, f: &mut fmt::Formatter<'_>) -> fmt::Result {
+        write!(f, "w{}", self.val)
+    }
+}
+pub struct NoDrop;
+impl Kind for NoDrop {
+    type K = NK;
+    type Q = u8;
+    type QO = u8;
+    type V = NV;
+    const NAME: &'static str = "nodrop";
+    const TRACKED: bool = false;
+    const NOALLOC: bool = true;
+    const COUNTS_CLONES: bool = true;
+    fn clone_calls() -> u64 {
+        ND_CLONES.with(|c| c.get())
+    }
+    fn kgen(k: &NK) -> u32 {
+        k.gen
+    }
+    fn vgen(v: &NV) -> u32 {
+        v.gen
+    }
+    fn key(raw: u8) -> NK {
+        NK { raw, gen: 0 }
+    }
+    fn qo(raw: u8) -> u8 {
+        raw
+    }
+    fn val(x: u32) -> NV {
+        NV { val: x, gen: 0 }
+    }
+    fn kraw(k: &NK) -> u8 {
+        k.raw
+    }
+    fn kid(_: &NK) -> u32 {
+        NOID
+    }
+    fn vval(v: &NV) -> u32 {
+        v.val
+    }
+    fn vid(_: &NV) -> u32 {
+        NOID
+    }
+    fn vset(v: &mut NV, x: u32) {
+        v.val = x
+    }
+    fn kdbg(raw: u8) -> String {
+        format!("n{raw}")
+    }
+    fn vdbg(x: u32) -> String {
+        format!("w{x}")
+    }
+    fn kdisp(raw: u8) -> String {
+        format!("n{raw}")
+    }
+    fn vdisp(x: u32) -> String {
+        format!("w{x}")
+    }
+}
+
+/// Zero-sized key *and* value: the whole `(K, V)` pair is zero-sized (pointer-range iterators
+/// over such slices are empty unless they count elements). At most one entry.
+pub struct ZstBoth;
+impl Kind for ZstBoth {
+    type K = Unit;
+    type Q = Unit;
+    type QO = Unit;
+    type V = Nil;
+    const NAME: &'static str = "zstboth";
+    const TRACKED: bool = false;
+    const NOALLOC: bool = true;
+    const MAX_UNIV: u8 = 1;
+    fn key(_: u8) -> Unit {
+        Unit
+    }
+    fn qo(_: u8) -> Unit {
+        Unit
+    }
+    fn val(_: u32) -> Nil {
+        Nil
+    }
+    fn kraw(_: &Unit) -> u8 {
+        0
+    }
+    fn kid(_: &Unit) -> u32 {
+        NOID
+    }
+    fn vval(_: &Nil) -> u32 {
+        0
+    }
+    fn vid(_: &Nil) -> u32 {
+        NOID
+    }
+    fn vset(_: &mut Nil, _: u32) {}
+    fn vnorm(_: u32) -> u32 {
+        0
+    }
+    fn kdbg(_: u8) -> String {
+        "Unit".into()
+    }
+    fn vdbg(_: u32) -> String {
+        "Nil".into()
+    }
+    fn kdisp(_: u8) -> String {
+        "U".into()
     }
     fn vdisp(_: u32) -> String {
         "nil".into()
